@@ -559,9 +559,39 @@ pub fn execute(plan: &Plan) -> RunOut {
                         }
                         YieldNow(false).await;
                     };
+                    // `handshake_with` is the only way to reach the client's map; it inserts a pair
+                    // with a secret drawn from the OS RNG (no seam).  That pair is immediately
+                    // superseded by one inserted through the maps' public dc::Path callbacks with
+                    // a secret derived from the plan, so that every key, credential id and
+                    // ciphertext byte of the run is a function of the plan (a mutated datagram
+                    // then parses the same way in every execution).
                     let peer = client.handshake_with(&handle).expect("test_insert_pair");
                     let map = peer.map().clone();
                     drop(peer);
+                    {
+                        let server = slots.lock().unwrap().server.clone().expect("server is set before its handle");
+                        let mut cparams = s2n_quic_core::dc::testing::TEST_APPLICATION_PARAMS;
+                        cparams.max_datagram_size = std::sync::atomic::AtomicU16::new(ctx.plan.cfg.server_mtu);
+                        let mut sparams = s2n_quic_core::dc::testing::TEST_APPLICATION_PARAMS;
+                        sparams.max_datagram_size = std::sync::atomic::AtomicU16::new(cp.mtu);
+                        let suite = if hashn(ctx.plan.seed, &[0xc1f4e5]) & 1 == 0 {
+                            s2n_quic_core::crypto::tls::CipherSuite::TLS_AES_128_GCM_SHA256
+                        } else {
+                            s2n_quic_core::crypto::tls::CipherSuite::TLS_AES_256_GCM_SHA384
+                        };
+                        let client_addr: std::net::SocketAddr = format!("127.0.0.1:{}", 2000 + ci).parse().unwrap();
+                        crate::mapdrv::handshake_with_params(
+                            &map,
+                            server.map(),
+                            client_addr,
+                            server.local_addr(),
+                            suite,
+                            hashn(ctx.plan.cfg.data_key, &[0x5ec2e7, ci as u64]),
+                            cparams,
+                            sparams,
+                        )
+                        .expect("deterministic path secret");
+                    }
                     {
                         let mut s = slots.lock().unwrap();
                         let cnt = s.hs_requests[ci].clone();
